@@ -4,7 +4,8 @@
 
 pub ghost enum Ev {
     UserStart,            // the user's closure was called for this item (its future was created)
-    UserEnd,              // the user's future resolved
+    UserEnd,              // the user's future resolved (try variants: with Ok)
+    UserFail,             // try variants: the user's future resolved with Err / Break
     DoneSend(int),        // the item's id was sent on the done channel
     ErrSend,              // the item's error was sent on the result channel
     DoneTxDrop,           // the scheduler's done sender was released
@@ -12,6 +13,17 @@ pub ghost enum Ev {
 }
 
 pub uninterp spec fn trace(w: World) -> Seq<Ev>;
+/// this item holds a "ticket": it was handed out and has not decremented fns_remaining yet
+pub uninterp spec fn ticket(w: World) -> bool;
+/// the scheduler's done sender has been taken out of its cell (monotone: it is never put back)
+pub uninterp spec fn done_tx_gone(w: World) -> bool;
+
+/// facts that survive every suspension point and every effect that is not about them
+pub open spec fn keeps(w0: World, w1: World) -> bool {
+    &&& ticket(w1) == ticket(w0)
+    &&& (done_tx_gone(w0) ==> done_tx_gone(w1))
+    &&& w1.n == w0.n
+}
 
 /// a future in the model: `completes(w0, w1, out)` relates the world before/after awaiting it and its output
 pub trait VxFuture {
@@ -34,19 +46,19 @@ pub struct UserFut<R> { _p: PhantomData<R> }
 impl<R> VxFuture for UserFut<R> {
     type Out = R;
     open spec fn completes(&self, w0: World, w1: World, out: R) -> bool {
-        trace(w1) == trace(w0).push(Ev::UserEnd)
+        trace(w1) == trace(w0).push(Ev::UserEnd) && keeps(w0, w1)
     }
 }
 
 /// R6: a call of a user callback with two arguments (fold variants) / one argument (for_each variants)
 #[verifier::external_body]
 pub fn vx_user_call<Fun, A, B, R>(f: &Fun, a: A, b: B, Tracked(w): Tracked<&mut World>) -> (r: UserFut<R>)
-    ensures trace(*final(w)) == trace(*old(w)).push(Ev::UserStart), final(w).n == old(w).n,
+    ensures trace(*final(w)) == trace(*old(w)).push(Ev::UserStart), keeps(*old(w), *final(w)),
 { unimplemented!() }
 
 #[verifier::external_body]
 pub fn vx_user_call1<Fun, A, R>(f: &Fun, a: A, Tracked(w): Tracked<&mut World>) -> (r: UserFut<R>)
-    ensures trace(*final(w)) == trace(*old(w)).push(Ev::UserStart), final(w).n == old(w).n,
+    ensures trace(*final(w)) == trace(*old(w)).push(Ev::UserStart), keeps(*old(w), *final(w)),
 { unimplemented!() }
 
 /// tokio `Sender::send(v)`: the returned future completes with Ok once the value is queued, with Err iff the
@@ -67,13 +79,14 @@ impl VxFuture for SendFut {
     open spec fn completes(&self, w0: World, w1: World, out: Result<(), SendError<NodeIndex<FnIdInner>>>) -> bool {
         &&& (out is Ok ==> trace(w1) == trace(w0).push(Ev::DoneSend(self.id())))
         &&& (out is Err ==> trace(w1) == trace(w0))
+        &&& keeps(w0, w1)
     }
 }
 
 impl Sender<NodeIndex<FnIdInner>> {
     #[verifier::external_body]
     pub fn send(&self, v: NodeIndex<FnIdInner>, Tracked(w): Tracked<&mut World>) -> (r: SendFut)
-        ensures r.id() == v.0.0, r.chan() == self.chan(), trace(*final(w)) == trace(*old(w)),
+        ensures r.id() == v.0.0, r.chan() == self.chan(), trace(*final(w)) == trace(*old(w)), keeps(*old(w), *final(w)),
     { unimplemented!() }
 }
 
@@ -83,4 +96,57 @@ pub fn vx_drop_done_tx<T>(x: Option<Sender<T>>, Tracked(w): Tracked<&mut World>)
     ensures
         x is None ==> trace(*final(w)) == trace(*old(w)),
         x is Some ==> trace(*final(w)) == trace(*old(w)).push(Ev::DoneTxDrop),
+        //  after `cell.take()` the cell is empty whatever it held
+        done_tx_gone(*final(w)), ticket(*final(w)) == ticket(*old(w)), final(w).n == old(w).n,
+{ unimplemented!() }
+
+/// the result (error) channel of try_for_each_concurrent*: `result_tx.send(e)` (R4: renamed `send_err` by receiver)
+#[verifier::external_body]
+#[verifier::reject_recursive_types(T)]
+pub struct ErrSendFut<T> { _p: PhantomData<T> }
+
+impl<T> VxFuture for ErrSendFut<T> {
+    type Out = Result<(), SendError<T>>;
+    /// ASSUMED: the result receiver is owned by the enclosing call and read only after join!, and at most one
+    /// error per item is sent into a channel of capacity max(1, n): the send succeeds without blocking
+    open spec fn completes(&self, w0: World, w1: World, out: Result<(), SendError<T>>) -> bool {
+        out is Ok && trace(w1) == trace(w0).push(Ev::ErrSend) && keeps(w0, w1)
+    }
+}
+
+impl<T> Sender<T> {
+    #[verifier::external_body]
+    pub fn send_err(&self, v: T, Tracked(w): Tracked<&mut World>) -> (r: ErrSendFut<T>)
+        ensures trace(*final(w)) == trace(*old(w)), keeps(*old(w), *final(w)),
+    { unimplemented!() }
+}
+
+#[verifier::external]
+impl<T> core::fmt::Debug for SendError<T> {
+    fn fmt(&self, f: &mut core::fmt::Formatter<'_>) -> core::fmt::Result { f.write_str("SendError") }
+}
+
+/// the future returned by a fallible user callback (try_* variants)
+#[verifier::external_body]
+#[verifier::reject_recursive_types(T)]
+#[verifier::reject_recursive_types(E)]
+pub struct TryUserFut<T, E> { _p: PhantomData<(T, E)> }
+
+impl<T, E> VxFuture for TryUserFut<T, E> {
+    type Out = Result<T, E>;
+    open spec fn completes(&self, w0: World, w1: World, out: Result<T, E>) -> bool {
+        &&& (out is Ok ==> trace(w1) == trace(w0).push(Ev::UserEnd))
+        &&& (out is Err ==> trace(w1) == trace(w0).push(Ev::UserFail))
+        &&& keeps(w0, w1)
+    }
+}
+
+#[verifier::external_body]
+pub fn vx_user_try_call<Fun, A, B, T, E>(f: &Fun, a: A, b: B, Tracked(w): Tracked<&mut World>) -> (r: TryUserFut<T, E>)
+    ensures trace(*final(w)) == trace(*old(w)).push(Ev::UserStart), keeps(*old(w), *final(w)),
+{ unimplemented!() }
+
+#[verifier::external_body]
+pub fn vx_user_try_call1<Fun, A, T, E>(f: &Fun, a: A, Tracked(w): Tracked<&mut World>) -> (r: TryUserFut<T, E>)
+    ensures trace(*final(w)) == trace(*old(w)).push(Ev::UserStart), keeps(*old(w), *final(w)),
 { unimplemented!() }
